@@ -72,7 +72,11 @@ func (pass *DisjunctionToType) processDisjunction(visitor *Visitor, schema *ast.
 		resolvedType, _ := schema.Resolve(disjunction.Branches[0])
 		scalarKind := resolvedType.AsScalar().ScalarKind
 
-		return ast.NewScalar(scalarKind, ast.Default(def.Default)), nil
+		scalarType := ast.NewScalar(scalarKind, ast.Default(def.Default))
+		// an optional field was made nullable earlier in the chain: it stays so
+		scalarType.Nullable = def.Nullable
+
+		return scalarType, nil
 	}
 
 	// type | otherType | something (| null)?
